@@ -159,7 +159,7 @@ def family_signal(draw, min_n=3, max_n=400, families=FAMILIES, small_bias=True):
 
 
 def sig_of(desc):
-    """The signal a case describes. An optional 'dtype' stores it as float32 / int64 / int16 (integer dtypes hold the
+    """The signal a case describes. An optional 'dtype' stores it as float32 / float16 / int64 / int16 (integer dtypes hold the
     signal scaled by 100 and rounded, like raw ADC counts); reference models work on sig.astype(float)."""
     if 'x' in desc:
         x = np.asarray(desc['x'], dtype=float)
@@ -168,6 +168,8 @@ def sig_of(desc):
     dt = desc.get('dtype', 'f8')
     if dt == 'f4':
         x = x.astype(np.float32)
+    elif dt == 'f2':
+        x = x.astype(np.float16)
     elif dt in ('i8', 'i2'):
         x = np.clip(np.round(x * 100), -30000, 30000).astype(np.int64 if dt == 'i8' else np.int16)
     if desc.get('layout', 'C') != 'C':
@@ -175,7 +177,7 @@ def sig_of(desc):
     return x
 
 
-DTYPES = ['f8', 'f8', 'f8', 'f8', 'f8', 'f4', 'i8', 'i2']
+DTYPES = ['f8', 'f8', 'f8', 'f8', 'f8', 'f8', 'f4', 'f2', 'i8', 'i2']
 
 
 def elementwise_signal(min_n=3, max_n=64, levels=False):
